@@ -105,6 +105,13 @@ fn probe(spec: &Spec, f: &ParserFactory, rep: &mut crate::report::Report) -> Res
             break;
         }
         if let Err(i) = feed(&mut m, el) {
+            // a refusal caused by a documented resource limit (highly ambiguous repetitions fill the Earley rows) is not a verdict
+            let mut h: Vec<u32> = so_far.iter().map(|&x| x as u32).collect();
+            h.extend(el[..=i.min(el.len() - 1)].iter().map(|&x| x as u32));
+            let last = h.pop().unwrap_or(0);
+            if resource_stop_on_replay(f, &spec.grammar, &h) || crate::tp::accepted_with_relaxed_limits(&vocab::v1(false), Some(vec![]), &spec.grammar, &h, last) {
+                return Err(("resource_stop".into(), json!({})));
+            }
             return Err(("element_rejected_midway".into(), json!({"count": c, "element": bytes_dbg(el), "at_byte": i, "so_far": bytes_dbg(&so_far)})));
         }
         so_far.extend_from_slice(el);
